@@ -473,6 +473,22 @@ def run(run: core.Run) -> int:
         for style in ("canonical", "random"):
             srcs += [{"src": g["text"], "file": None, "origin": "generated-program-" + style}
                      for g in escommon.gen_programs(r, max(20, n_prog // 6), escommon.default_cfgs(run.tier), style)]
+        # a separator at EVERY token boundary, one boundary at a time: each of a few programs is printed with single blanks and
+        # then once per boundary with a block comment / a line break / a comment and a line break in place of that blank
+        # (a rule that swallows what stands between two particular tokens shows on exactly that variant)
+        from ..gen import surface
+        for g in escommon.gen_programs(r, 6 if quick else 40, [escommon.Cfg(max_depth=2, max_stmts=3, max_routines=2, coro=True, macros=False)], "canonical"):
+            pr = surface.Printer()
+            pr.program(g["ast"])
+            toks = [t.text for t in pr.toks]
+            for i in range(1, len(toks)):
+                sep = r.choice(["/* c */", " /* c */ ", "\n", " // c\n", "/**/", "\t"])
+                srcs.append({"src": " ".join(toks[:i]) + sep + " ".join(toks[i:]), "file": None, "origin": "generated-program-boundary"})
+        for kw in ("coro", "macro", "def 0 for actor", "def 0 for_object"):
+            for sep in ("/* c */", " /* unionall */ ", "\n", "/* a */ /* b */"):
+                tail = {"coro": "Foo {\n    end;\n}\n", "macro": "m($a) {\n    end;\n}\ndef 0 {\n    end;\n}\n",
+                        "def 0 for actor": "3 {\n    end;\n}\n", "def 0 for_object": "(3) {\n    end;\n}\n"}[kw]
+                srcs.append({"src": kw + sep + tail, "file": None, "origin": "generated-program-boundary"})
         ch = 100
         chunks = [srcs[i:i + ch] for i in range(0, len(srcs), ch)]
         outs = ck.pool.map("harness.impl_pyg:compile_sources", chunks, timeout=300)
